@@ -217,6 +217,42 @@ def _stage1(job):
             "wall": r.wall, "coverage": {a: r.coverage.get(a) for a in ACTIONS} if coverage else None}
 
 
+def _monitor_selftest(_):
+    """The trace monitor must reject corrupted recordings (one per clause) and accept the original."""
+    import copy
+    sc = {"fr": "cl", "sub": "204", "len": 2, "cut": c03drv.NOCUT, "ka": True, "extra": "none", "after": "none", "late": 0,
+          "shape": "cells"}
+    hist = {"maxsize": 1, "retries": 1, "seg": "exact",
+            "steps": [{"sc": sc, "op": {"kind": "read", "k": 0, "hold": False}}] * 2}
+    base = {"seg": "exact", "ev": c03drv.run_history(hist)["ev"]}
+    if [e["e"] for e in base["ev"]] != ["req", "op", "req", "op"] or base["ev"][2]["hdr"]["n"] != 2:
+        raise tlc.MachineryError("monitor self-test: the clean two-request history did not reuse its connection")
+
+    def mut(f):
+        t = copy.deepcopy(base)
+        f(t["ev"])
+        return t
+
+    def foreign_cell(ev): ev[3]["deliv"][0]["r"] = 1
+    def foreign_head(ev): ev[2]["hdr"]["r"] = 1
+    def raw_error(ev): ev[2]["out"] = "raw"
+    def raw_read_error(ev): ev[1]["res"] = "raw"
+    def unclean_prev(ev): ev[1]["op"] = {"kind": "readk", "k": 1, "hold": False}
+    def pending(ev): ev[2]["att"][0]["kpend"] = True
+    def too_long(ev): ev[3]["sentn"] = 1
+    def errored_prev(ev): ev[1]["res"] = "urllib3"
+
+    cases = [(lambda ev: None, "ok"), (foreign_cell, "OnlyOwnBytes"), (foreign_head, "OnlyOwnBytes"),
+             (raw_error, "OnlyUrllib3Errors"), (raw_read_error, "OnlyUrllib3Errors"), (unclean_prev, "UncleanNeverReused"),
+             (pending, "UncleanNeverReused"), (too_long, "OnlyOwnBytes"), (errored_prev, "UncleanNeverReused")]
+    _, verdicts = validate_traces([mut(f) for f, _ in cases])
+    got = [v[2] for v in verdicts]
+    want = [w for _, w in cases]
+    if got != want:
+        raise tlc.MachineryError(f"monitor self-test: verdicts {got}, expected {want}")
+    return len(cases)
+
+
 # ------------------------------------------------------------------------------ plans
 
 CONFIGS = [dict(maxsize=m, retries=rt, seg=sg) for m in (1, 2) for rt in (0, 1) for sg in ("slurp", "exact")]
@@ -237,18 +273,20 @@ def plan(tier, seed):
     if tier == "quick":
         for c in CONFIGS:                                           # every 2-request history, all configurations
             add("hard", 1, nh * no * nf, nreq=2, full=1, **c)
-        for c in (dict(maxsize=2, retries=1, seg="slurp"), dict(maxsize=1, retries=0, seg="exact")):
+        for c in (dict(maxsize=2, retries=1, seg="slurp"),):
             add("hard", 4, nc * nco * nc * nco * nf, nreq=3, full=2, s1="CoreScripts", o1="CoreOps", sn="CoreScripts",
                 on="CoreOps", **c)                                  # covering 3-request histories
         for c in (CONFIGS[1], CONFIGS[2], CONFIGS[4], CONFIGS[7]):
             add("s4", 1, ns4 * no * nf * nf, nreq=3, full=1, s1="S4Scripts", **c)
     else:
-        for c in CONFIGS:                                           # every 3-request history (2 full steps + final)
-            add("hard", 6, nh * no * nh * no * nf, nreq=3, full=2, **c)
-        for c in (dict(maxsize=2, retries=1, seg="slurp"), dict(maxsize=1, retries=1, seg="exact")):
-            add("hard", 8, (nc * nco) ** 3 * nf, nreq=4, full=3, s1="CoreScripts", o1="CoreOps", sn="CoreScripts",
-                on="CoreOps", **c)                                  # covering 4-request histories
+        cover = [CONFIGS[0], CONFIGS[3], CONFIGS[5], CONFIGS[6]]      # pairwise cover of maxsize x retries x seg
         for c in CONFIGS:
+            if c in cover:                                          # every 3-request history (2 full steps + final)
+                add("hard", 8, nh * no * nh * no * nf, nreq=3, full=2, **c)
+            else:
+                add("hard", 1, nh * no * nf, nreq=2, full=1, **c)
+                add("hard", 2, nc * nco * nc * nco * nf, nreq=3, full=2, s1="CoreScripts", o1="CoreOps", sn="CoreScripts",
+                    on="CoreOps", **c)
             add("s4", 1, ns4 * no * nf * nf, nreq=3, full=1, s1="S4Scripts", **c)
             add("s4", 2, ns4 * no * nc * nco * nf, nreq=3, full=2, s1="S4Scripts", sn="CoreScripts", on="CoreOps", **c)
     return jobs
@@ -301,8 +339,10 @@ def run(rep):
     s1 = stage1_jobs(rep.tier)
     with mp.Pool(min(16, os.cpu_count() or 4)) as pool:
         a1 = pool.map_async(_stage1, s1, chunksize=1)
+        a2 = pool.map_async(_monitor_selftest, [0])
         outs = pool.map(_shard, jobs, chunksize=1)
         s1outs = a1.get()
+        rep.extra["monitor_selftest_cases"] = a2.get()[0]
 
     # ---- stage 1 bookkeeping: dedicated runs
     for o in s1outs:
